@@ -40,19 +40,20 @@ Definition escape_filter_value (v : bytes) : bytes :=
   then fold_left (fun acc cr => replace_byte (fst cr) (snd cr) acc) filter_value_replacements v
   else v.
 
+(* the loop of the And arm: " AND " before every item but the first *)
+Fixpoint and_items (first : bool) (items : list bytes) : bytes :=
+  match items with
+  | [] => []
+  | x :: r => (if first then [] else b " AND ") ++ x ++ and_items false r
+  end.
+
 (* FilterType::render; the And arm's assert! is accounted for by [and_ok] below *)
 Fixpoint render_ftype (f : ftype) : bytes :=
   match f with
   | FTag t o v =>                                  (* write!(buf, r#"({} {} \"{}\")"#, ...) *)
     [40] ++ tag_as_str t ++ [SP] ++ operator_str o ++ [SP; BS; DQ] ++ escape_filter_value v ++ [BS; DQ; 41]
   | FTNot g => [40; 33] ++ render_ftype g ++ [41]
-  | FTAnd l =>
-    [40] ++
-    (fix go (first : bool) (l : list ftype) : bytes :=
-       match l with
-       | [] => []
-       | c :: r => (if first then [] else b " AND ") ++ render_ftype c ++ go false r
-       end) true l ++ [41]
+  | FTAnd l => [40] ++ and_items true (map render_ftype l) ++ [41]
   end.
 
 (* assert!(inner.len() >= 2) holds at every And node that rendering visits *)
@@ -60,8 +61,7 @@ Fixpoint and_ok (f : ftype) : bool :=
   match f with
   | FTag _ _ _ => true
   | FTNot g => and_ok g
-  | FTAnd l => Nat.leb 2 (length l) &&
-               (fix all (l : list ftype) : bool := match l with [] => true | c :: r => and_ok c && all r end) l
+  | FTAnd l => Nat.leb 2 (length l) && forallb and_ok l
   end.
 
 Inductive render_result := Rendered (r : bytes) | RenderPanic.
